@@ -1,4 +1,5 @@
 import TwistedProps.C39.Run
+import TwistedProps.C39.Seg
 /-!
 C39 — telnet option negotiation always converges.
 
@@ -149,6 +150,89 @@ theorem negotiation_converges (pol : Bool → Policy) (ops : List Op) (h : wf po
     negotiation_terminates pol ops h,
     fun hA hB => ⟨f4 hA hB, agreement_at_quiescence pol ops h hA hB⟩⟩
 
+/-- **C39 for every segmentation of the two byte streams and for synchronous transports.**  An extended
+    history (`TwistedModel/Telnet/NegotiateSeg.lean`) also contains `bytes side n` (the next `n` bytes in
+    flight arrive as one `dataReceived` segment — a fragment of a command, several commands, or a cut anywhere
+    between) and `sreq side cmd option` (a request on a transport whose `write` delivers synchronously, so the
+    peer's answers arrive before `will()/do()` returns).  Its run is the command-level run of the primitive
+    history it unfolds to (`mrun_is_run`), with the same requests (`mrun_requests`), so everything
+    `negotiation_converges` says holds for it, for its trace `tr` (the concatenated event groups). -/
+theorem negotiation_converges_segmented (pol : Bool → Policy) (ops : List MOp) (h : mwf pol ops) :
+    let r := mrun pol MSys.init ops
+    let tr := r.2.1.flatten
+    raisedIn tr = false ∧
+    (firedIds tr).Nodup ∧ (∀ i ∈ firedIds tr, i < mnumReq ops) ∧
+    sentCount tr ≤ 2 * mnumReq ops ∧ inflight r.1.sys ≤ 2 * mnumReq ops ∧
+    (r.1.sys.inbox false = [] → r.1.sys.inbox true = [] →
+      (∀ i, i < mnumReq ops → (firedIds tr).count i = 1) ∧
+      ∀ o, (r.1.sys.opts false o).us.state = (r.1.sys.opts true o).him.state ∧
+           (r.1.sys.opts false o).him.state = (r.1.sys.opts true o).us.state ∧
+           (r.1.sys.opts false o).us.negotiating = false ∧ (r.1.sys.opts false o).him.negotiating = false ∧
+           (r.1.sys.opts true o).us.negotiating = false ∧ (r.1.sys.opts true o).him.negotiating = false) := by
+  intro r tr
+  obtain ⟨w, n⟩ := mrun_requests pol ops MSys.init h
+  have e : run pol Sys.init r.2.2 = (r.1.sys, tr) := mrun_is_run pol ops MSys.init
+  have c := negotiation_converges pol r.2.2 w
+  simp only [e] at c
+  have n' : numReq r.2.2 = mnumReq ops := n
+  rw [n'] at c
+  obtain ⟨c1, c2, c3, c4, c5, c6⟩ := c
+  exact ⟨c1, c2, c3, c4, by omega, c6⟩
+
+/-- the pump started by a request after a well-formed history empties both channels -/
+theorem drain_empties (pol : Bool → Policy) (hist : List Op) (h : wf pol hist) (fuel : Nat)
+    (hf : 2 * numReq hist < fuel) :
+    (run pol (run pol Sys.init hist).1 (drainOps pol fuel (run pol Sys.init hist).1)).1.inbox false = [] ∧
+    (run pol (run pol Sys.init hist).1 (drainOps pol fuel (run pol Sys.init hist).1)).1.inbox true = [] := by
+  rcases drain_progress pol fuel (run pol Sys.init hist).1 with h1 | h1
+  · exact h1
+  · exfalso
+    have w : wf pol (hist ++ drainOps pol fuel (run pol Sys.init hist).1) := by
+      intro p hp
+      rcases List.mem_append.mp hp with hp | hp
+      · exact h p hp
+      · obtain ⟨y, hy⟩ := drainOps_deliver pol _ _ p hp
+        rw [hy]; rfl
+    have t := negotiation_terminates pol _ w
+    rw [effDeliveries_append, numReq_append, drainOps_numReq] at t
+    omega
+
+/-- **A request on a synchronous transport returns with nothing in flight**: if the request writes its command,
+    the pump it starts (answers, answers to answers, …) ends with both channels empty — within the number of
+    rounds the model allows it, so no message loop can be started this way either. -/
+theorem synchronous_request_quiesces (pol : Bool → Policy) (ops : List MOp) (x : Bool) (c : Cmd) (o : Nat)
+    (h : mwf pol (ops ++ [.sreq x c o])) :
+    let ms := (mrun pol MSys.init ops).1
+    let r := mstep pol ms (.sreq x c o)
+    hasSent (step pol ms.sys (.req x c o)).2 = true →
+      r.1.sys.inbox false = [] ∧ r.1.sys.inbox true = [] := by
+  intro ms r hs
+  have hops : mwf pol ops := fun p hp => h p (List.mem_append.mpr (Or.inl hp))
+  have hop : wfOp pol (.req x c o) = true := h (.sreq x c o) (by simp)
+  obtain ⟨w, n⟩ := mrun_requests pol ops MSys.init hops
+  have e : run pol Sys.init (mrun pol MSys.init ops).2.2 = (ms.sys, _) := mrun_is_run pol ops MSys.init
+  have hid : ms.sys.nextId = numReq (mrun pol MSys.init ops).2.2 := by
+    have := run_nextId pol (mrun pol MSys.init ops).2.2 Sys.init
+    rw [e] at this
+    simpa [Sys.init] using this
+  let hist := (mrun pol MSys.init ops).2.2 ++ [Op.req x c o]
+  have whist : wf pol hist := by
+    intro p hp
+    rcases List.mem_append.mp hp with hp | hp
+    · exact w p hp
+    · simp at hp; rw [hp]; exact hop
+  have es : (run pol Sys.init hist).1 = (step pol ms.sys (.req x c o)).1 := by
+    simp only [hist, run_append, e, run_cons, run_nil]
+  have nh : numReq hist = ms.sys.nextId + 1 := by
+    simp only [hist, numReq_append, hid]; simp [numReq, List.filter_cons, isReqOp]
+  have d := drain_empties pol hist whist (2 * (ms.sys.nextId + 1) + 2) (by omega)
+  simp only [es] at d
+  have er : r.1.sys = (run pol (step pol ms.sys (.req x c o)).1
+      (drainOps pol (2 * (ms.sys.nextId + 1) + 2) (step pol ms.sys (.req x c o)).1)).1 := by
+    simp only [r, mstep, mops, hs, if_true, run_cons]
+  rw [er]
+  exact d
+
 /-! ### Non-vacuity and sharpness -/
 
 /-- everything accepted on both sides -/
@@ -184,6 +268,29 @@ example :
 
 /-- before quiescence a Deferred can be pending: "exactly once" needs the quiescence premise -/
 example : firedIds (run polAll Sys.init [.req false .WILL 1, .deliver true]).2 = [] := by decide
+
+/-- an extended history: two requests, both commands in ONE segment cut after 4 bytes then the rest; a
+    request on a synchronous transport (answered before it returns: one group of five events); a segment
+    that ends inside a command leaves it in flight -/
+def demoSeg : List MOp :=
+  [.req false .WILL 1, .req false .DO 3, .bytes true 4, .bytes true 2, .bytes false 6,
+   .sreq true .WILL 31, .req false .WONT 1, .bytes true 2]
+
+example : mwf polAll demoSeg := by decide
+
+example :
+    let r := mrun polAll MSys.init demoSeg
+    mnumReq demoSeg = 4 ∧ r.2.2.length = 10 ∧ r.2.1.map List.length = [1, 1, 2, 2, 4, 5, 1, 0] ∧
+    r.1.sys.inbox false = [] ∧ r.1.sys.inbox true = [(.WONT, 1)] ∧ r.1.part true = 2 ∧
+    firedIds r.2.1.flatten = [0, 1, 2] ∧ (r.1.sys.opts true 31).us.state = true := by decide
+
+/-- a request on a synchronous transport that writes: answered and acknowledged before it returns, nothing in flight;
+    the premises of `synchronous_request_quiesces` are satisfiable -/
+example :
+    let ops := [MOp.req false .WILL 1, .sreq true .DO 3]
+    mwf polAll ops ∧ hasSent (step polAll (mrun polAll MSys.init [MOp.req false .WILL 1]).1.sys (.req true .DO 3)).2 = true ∧
+    (mrun polAll MSys.init ops).1.sys.inbox false = [] ∧ (mrun polAll MSys.init ops).1.sys.inbox true = [] ∧
+    firedIds (mrun polAll MSys.init ops).2.1.flatten = [0, 1] := by decide
 
 /-- the hypothesis is needed: an endpoint that calls `do(1)` while its own `enableRemote` refuses 1
     trips the assertion in `will_no_true` when the peer agrees -/
